@@ -69,6 +69,58 @@ def main(argv):
                       f'impl={str(r)[:200]} model={str(mv)[:200]}',
                       {'case': cases[i][0], 'impl': r, 'required_by_model': mv,
                        'theorems': 'Properties/C19.v (C19_lines_carry_text)'})
+    # ---- builder level: changing only copyright / creator information changes nothing but comment lines
+    import gen_build as GB
+    from checks import buildcases as BC
+    nb = 25 if tier == 'quick' else 500
+    bcases, pairs = [], []
+    for _ in range(nb):
+        b = GB.gen_case(rng)
+        variants = []
+        for _ in range(3):
+            cfg = dict(b['cfg'])
+            cfg['copyright'] = G.rand_str(rng) + rng.choice(['', '\\', '*/', '\rint injected = 1;', '\x0cstatic int x;', '\u2028#define Y'])
+            cfg['creator'] = rng.choice([None, G.rand_str(rng), 'tool\x85int z;', G.rand_line(rng)])
+            variants.append(len(bcases))
+            bcases.append({'file': b['file'], 'cfg': cfg})
+        pairs.append(variants)
+    bio, bmo = BC.run_builds(bcases, timeout=3000)
+
+    def noncomment(files):
+        return [[f[0], [l for l in physical_lines(f[1]) if not l.startswith('//')]] for f in files]
+    nvb = 0
+    for variants in pairs:
+        for j in variants:
+            rep.case({'cfg': bcases[j]['cfg']}, shape='build/' + bio[j][0])
+        outs = [bio[j] for j in variants]
+        problem, failing, j = None, True, variants[0]
+        if any(o[0] == 'internal' for o in outs):
+            j = variants[[o[0] for o in outs].index('internal')]
+            problem = f'build raised {bio[j][1]}'
+        elif len({o[0] for o in outs}) > 1:
+            problem = f'changing only copyright/creator information changed the build outcome: {[o[0] for o in outs]}'
+        elif outs[0][0] == 'ok':
+            base = noncomment(outs[0][1])
+            for v, o in zip(variants[1:], outs[1:]):
+                nc = noncomment(o[1])
+                if nc != base:
+                    fn = next(a[0] for a, b2 in zip(base, nc) if a != b2)
+                    la, lb = next((a[1], b2[1]) for a, b2 in zip(base, nc) if a != b2)
+                    extra = [x for x in lb if x not in la][:2] + [x for x in la if x not in lb][:2]
+                    problem, j = f'changing only copyright/creator information changed non-comment lines of {fn}: {extra}', v
+                    break
+        if not problem:
+            for v in variants:
+                i, m = bio[v], bmo[v]
+                if i[0] != m[0] or (i[0] == 'ok' and BC.first_diff([f[:2] + [f[3]] for f in i[1]], m[1])):
+                    d = BC.first_diff([f[:2] + [f[3]] for f in i[1]], m[1]) if i[0] == 'ok' == m[0] else f'{i[0]} vs {m[0]}'
+                    problem, failing, j = f'correspondence legA:Builder.build broken: {d}', False, v
+                    break
+        if problem and nvb < 4:
+            nvb += 1
+            rep.violation(problem, {'file': bcases[j]['file'], 'configuration': bcases[j]['cfg'],
+                                    'other_variants': [bcases[v]['cfg'] for v in variants]}, failing_input=failing)
+    rep.extra['builds_varying_only_copyright_creator'] = len(bcases)
     gate = proof_gate('C19')
     return rep.finish(gate, 'hostile strings (all line-break code points, trailing backslashes, */, blank lines, leading '
                       'whitespace) and nested content as Comment text; each case: render, render again, extend, render, '
